@@ -675,3 +675,20 @@ def compile_case(case):
     kinds = sorted({cname(r.node) for r in dbg_mem.stmts})
     return {'items': items, 'real': real, 'fails': fails, 'stats': stats, 'obs': obs,
             'trap': trap, 'kinds': kinds}
+
+
+def any_case(case):
+    """one entry point, so that a check needs a single set of workers"""
+    k = case['k']
+    c = case['case']
+    if k == 'collector':
+        return collector_case(c)
+    if k == 'finalize':
+        return finalize_case(c)
+    if k == 'find':
+        return find_case(c)
+    if k == 'linecol':
+        return linecol_case(c)
+    if k == 'compile':
+        return compile_case(c)
+    raise ValueError(k)
